@@ -148,6 +148,23 @@ func c15One(e *core.Env, drv *core.Driver, cs c15Case, explore bool) (string, st
 			order = append(order, ok)
 		}
 	}, func(c *core.Ctx) bool { return key == "" && len(outcomes) < 2 })
+	if key == "" {
+		// --inplace must leave exactly what the stdout mode prints
+		std := drv.Run(nil, args...)
+		drv.Files(map[string]string{"train.knut": cs.Training, "target.knut": cs.Target, "inplace.knut": cs.Target})
+		ip := drv.Run(nil, "infer", "-t", "train.knut", "-a", cs.Placeholder, "--inplace", "inplace.knut")
+		got, _ := drv.ReadFile("inplace.knut")
+		switch {
+		case ip.Abnormal() != "":
+			key, detail = "C15:abnormal:inplace", ip.Abnormal()
+		case ip.Exit != std.Exit:
+			key, detail = "C15:inplace-differs", fmt.Sprintf("exit %d with --inplace, %d without", ip.Exit, std.Exit)
+		case std.Exit == 0 && got != std.Stdout:
+			key, detail = "C15:inplace-differs", fmt.Sprintf("file written by --inplace differs from the stdout result\nfile:\n%s\nstdout:\n%s", got, std.Stdout)
+		case ip.Stdout != "":
+			key, detail = "C15:inplace-differs", "--inplace also wrote to stdout: " + ip.Stdout
+		}
+	}
 	if key == "" && len(outcomes) > 1 {
 		key, detail, picks = "C15:choice-depends-on-map-order", "two map iteration orders give different results:\n"+order[0]+"\n---\n"+order[1], outcomes[order[1]]
 	}
